@@ -435,6 +435,9 @@ def gen_ck(rng, n, profile):
     for a in range(256):
         for b in (0, 1, 2, 127, 128, 200, 254, 255):
             yield f'ck|{a}|{b}'
+    for a in (0, 1, 0x37, 0x80, 0xff):
+        for b in (0, 1, 0x80, 0xff):
+            yield f'ckm|{a}|{b}'
     for _ in range(16 if not profile.startswith('all-states') else 64):
         yield f'ckm|{rng.randrange(256)}|{rng.randrange(256)}'
     # several objects alive at once, fed in turns
@@ -891,6 +894,10 @@ def oracles_key(line, real_out):
             bits = {1: 1, 2: 8, 3: 16, 4: 32, 5: 64}[code]
             tsg = table_signed(key)
             okv = bits == 1 or (-(1 << (bits - 1)) <= v < (1 << (bits - 1)) if tsg else 0 <= v < (1 << bits))
+            if not okv:
+                tail = real_out.split(' ')[-1]
+                recs.append({'prop': 'C14', 'ok': tail == 'EXC:ValueError', 'expected': 'EXC:ValueError', 'observed': real_out[:120],
+                             'what': 'encoding an out-of-range value raises ValueError (item built from a key id; the range is that of the key\'s size and documented signedness)'})
             if okv:
                 tail = real_out.split(' ')[-1]
                 exp = struct.pack('<I', key).hex()
